@@ -318,6 +318,9 @@ func (u *Unit) unmarshal(st *State, instr ssa.Instruction, cc *ssa.CallCommon, a
 }
 
 func (u *Unit) stubMethod(st *State, instr ssa.Instruction, name string, recv T, args []Value, sig *types.Signature) ([]callRes, bool) {
+	if strings.HasSuffix(name, ".Scan") {
+		return u.scanStub(st, instr, recv, args), true
+	}
 	switch name {
 	case "context.Context.Done":
 		u.declCtx()
@@ -666,4 +669,61 @@ func (u *Unit) wgKey(st *State, v Value) string {
 		return "wg:" + p.cell.name
 	}
 	return "wg:" + p.String()
+}
+
+// scanStub models rowScanner.Scan / (*sql.Row).Scan / (*sql.Rows).Scan:
+// on success every destination receives the column value of the current row
+// (uninterpreted function of result set, row index and column index); on
+// failure (non-nil error) the destinations are arbitrary.
+func (u *Unit) scanStub(st *State, instr ssa.Instruction, recv T, args []Value) []callRes {
+	u.note("stub Scan (database/sql rows): assigns the current row's columns to the destinations, or fails with a non-nil error leaving them arbitrary")
+	r := recv
+	if recv.Sort == SIface {
+		r = app(SInt, "ival", recv)
+	}
+	u.noteHeap("G!rowpos", ArrSort(SInt, SInt))
+	pos := Select(u.heapGet(st.view(), "G!rowpos", ArrSort(SInt, SInt)), r)
+	row := Sub(pos, IntLit(1))
+	errv := u.fresh("scanerr", SIface)
+	fails := u.ghost("scanFails", SBool, r, row)
+	st.assume(Eq(Neq(app(SInt, "ity", errv), IntLit(0)), fails))
+	var dests []Value
+	if len(args) == 1 {
+		if sl, ok := args[0].(*SliceLit); ok {
+			dests = sl.lit.elems
+		}
+	}
+	if dests == nil {
+		u.unsupportedf("Scan with non-literal destination list")
+		return one(st, errv)
+	}
+	for i, d := range dests {
+		dt, ok := d.(T)
+		if !ok {
+			u.unsupportedf("Scan destination %d is not an interface value", i)
+			continue
+		}
+		ds := dt.S
+		if def, ok := u.defOf[ds]; ok {
+			ds = def
+		}
+		parts := ctorArgs(ds, "mk_iface")
+		if len(parts) != 2 {
+			u.unsupportedf("Scan destination %d: unknown pointer in %s", i, dt.S)
+			continue
+		}
+		p, ok := u.eng.iptrs[parts[1]]
+		if !ok {
+			u.unsupportedf("Scan destination %d: unknown pointer %s (of %s)", i, parts[1], dt.S)
+			continue
+		}
+		srt := u.sortOf(p.typ)
+		fn := "scancol" + smtName(string(srt))
+		u.decls.Add("ghost:"+fn, fmt.Sprintf("(declare-fun %s (Int Int Int) %s)", fn, srt))
+		good := app(srt, fn, r, row, IntLit(int64(i)))
+		bad := u.fresh("scanpartial", srt)
+		u.store(st, p, Ite(fails, bad, good))
+	}
+	u.event(st, "Scan", append([]Value{recv}, args...))
+	return one(st, errv)
 }
